@@ -7111,6 +7111,9 @@ pub(crate) fn eval(env: &mut Env, session: &Session) -> Result<Value, EvalError>
         if let Some((mut expr_state, outer_expr)) = env.current_frame_mut().exprs_to_eval.pop() {
             env.ticks += 1;
 
+            #[cfg(wilfred_garden_verif)]
+            verif_inject_interrupt(env.ticks, session);
+
             if session.interrupted.load(Ordering::SeqCst) {
                 session.interrupted.store(false, Ordering::SeqCst);
                 restore_stack_frame(env, (expr_state, outer_expr), &[]);
@@ -7832,6 +7835,22 @@ pub(crate) fn eval_toplevel_exprs(
 
     let value = eval(env, session)?;
     Ok(vec![value])
+}
+
+/// Verification hook: request an interrupt, through the same flag a
+/// real interrupt request sets, when the tick counter reaches one of
+/// the values listed in `GARDEN_VERIF_INTERRUPT_AT` (comma separated).
+#[cfg(wilfred_garden_verif)]
+fn verif_inject_interrupt(ticks: usize, session: &Session) {
+    static TICKS: std::sync::OnceLock<Vec<usize>> = std::sync::OnceLock::new();
+    let at = TICKS.get_or_init(|| {
+        std::env::var("GARDEN_VERIF_INTERRUPT_AT")
+            .map(|s| s.split(',').filter_map(|t| t.trim().parse().ok()).collect())
+            .unwrap_or_default()
+    });
+    if at.contains(&ticks) {
+        session.interrupted.store(true, Ordering::SeqCst);
+    }
 }
 
 #[cfg(test)]
